@@ -138,6 +138,11 @@ class StateHist(Engine):
                 nid = f"s{len(ids)}"
                 ops.append({"op": "child", "id": nid, "of": parent, "updates": rand_updates(ro, 3)})
                 ids.append(nid)
+            elif r < 0.49:
+                # work done on a CLONE of the states' problem (what every compiler does): nothing a state answers may change
+                fd = ro.choice(fluents)
+                ops.append({"op": "aside", "how": ro.choice(["write_default", "write_default", "add_fluent", "set_init"]),
+                            "fluent": fd["name"], "value": ro.choice(values_for(fd["type"], objs, tmap))})
             elif r < 0.55:
                 ops.append({"op": "hash", "s": ro.choice(ids)})
             elif r < 0.70:
@@ -263,6 +268,25 @@ class StateHist(Engine):
                     ctx.probe("chain-path")
                 ctx.ev(i, "child", op["id"], "of", op["of"], len(ups), "condensing" if condensing else "chained")
                 ctx.outcome("child", "condense" if condensing else "chain")
+            elif k == "aside":
+                if op["fluent"] not in W.fluents:
+                    continue
+                f = W.fluents[op["fluent"]]
+                c = p.clone()
+                try:
+                    if op["how"] == "write_default":
+                        # the public property hands out the clone's own map (UndefinedInitialNumericRemover writes to it)
+                        c.fluents_defaults[f] = W.expr(op["value"])
+                    elif op["how"] == "add_fluent":
+                        c.add_fluent("aside_" + str(i), f.type, default_initial_value=W.expr(op["value"]))
+                    elif f.arity == 0:
+                        c.set_initial_value(f(), W.expr(op["value"]))
+                except BuildError:
+                    raise
+                except Exception as ex:
+                    ctx.ev(i, "aside", op["how"], type(ex).__name__)
+                ctx.probe("edited-a-clone-of-the-problem")
+                ctx.outcome("aside", op["how"])
             elif k in ("hash", "repr"):
                 if op["s"] not in real:
                     continue
